@@ -32,9 +32,15 @@ THEOREMS = [
     "options_lattice",
     "sort_namespaces_irrelevant",
     "genprefix_fresh",
+    "wire_text_roundtrip",
+    "pretty_plain_same_text",
+    "wire_attr_roundtrip",
+    "escape_alone_loses_cr",
+    "escape_alone_attr_loses_ws",
 ]
 
 PRE = "From SV Require Import Lib.Base C05.Model."
+PRE_TEXT = "From SV Require Import Lib.Base C05.Text."
 
 XSI = F.XSI
 XSD = F.XSD
@@ -46,6 +52,7 @@ K_UNBOUND = "C05:prefixes-off-unbound-xsi"
 K_CAPTURED = "C05:prefixes-off-unqualified-captured"
 K_OTHER = "C05:request-changes-with-options"
 K_BUILD = "C05:request-not-built"
+K_TEXT = "C05:character-data-changes-on-the-wire"
 
 _GP = re.compile(r"^ns(0|[1-9][0-9]{0,4})$")
 
@@ -391,6 +398,58 @@ def describe(v):
     return repr(v)
 
 
+# strings whose wire form depends on the serialiser's escaping: a literal CR (alone or in CRLF) would be
+# normalised to LF by the receiving parser, TAB/LF/CR inside an attribute value to a space
+WS_STRINGS = ["first\rsecond", "dos line\r\n", "\r", "\r\n\r\n", "tab\tsep", "two\nlines", "a\r\nb\rc\nd",
+              " lead\tand trail \r", "\t", "x & y <z>\r", "q\"uo'te\n", "\n\r", "end\r"]
+
+
+def ws_string(rng):
+    if rng.random() < 0.7:
+        return rng.choice(WS_STRINGS)
+    return "".join(rng.choice(["\r", "\n", "\t", "\r\n", " ", "a", "b", "é", "&", "<"]) for _ in range(rng.randrange(1, 7)))
+
+
+def inject_ws(rng, v, p, hit):
+    """replace string leaves / attribute values / raw-element texts by whitespace-bearing strings"""
+    if isinstance(v, tuple) and v and v[0] == "leaf":
+        if isinstance(v[1], str) and rng.random() < p:
+            t = ws_string(rng)
+            hit[0] += 1
+            return ("leaf", t, t)
+        return v
+    if isinstance(v, list):
+        return [inject_ws(rng, x, p, hit) for x in v]
+    if isinstance(v, F.VObj):
+        v.fields[:] = [(k, inject_ws(rng, x, p, hit)) for k, x in v.fields]
+        return v
+    if isinstance(v, ElDesc):
+        if v.text is not None and rng.random() < p:
+            v.text = ws_string(rng)
+            hit[0] += 1
+        for i, a in enumerate(v.attrs):
+            if a[0] in ("plain", "prefixed") and rng.random() < p:
+                v.attrs[i] = a[:2] + (ws_string(rng).replace(":", ";"),) + a[3:]
+                hit[0] += 1
+        for k in v.kids:
+            inject_ws(rng, k, p, hit)
+        return v
+    return v
+
+
+def pick_prefixes(rng, n):
+    """prefixes the WSDL binds to the schema namespaces (they reach the request through typed header
+    elements and meet the ns<k> prefixes the normaliser generates for the body)"""
+    r = rng.random()
+    if r < 0.4:
+        return ["ns%d" % i for i in range(n)]
+    if r < 0.8:
+        ks = list(range(n + 2))
+        rng.shuffle(ks)
+        return ["ns%d" % k for k in ks[:n]]
+    return rng.sample(["ns0", "ns1", "ns2", "ns10", "tn", "q", "r", "m"], n)
+
+
 def gen_case(seed, idx):
     """Everything about request number idx is drawn from its own generator."""
     rng = random.Random("C05/%d/%d" % (seed, idx))
@@ -440,6 +499,51 @@ def gen_case(seed, idx):
     R = F.Renderer(S)
     R.local_tns = rng2.random() < 0.3
     c.local_tns = R.local_tns
+    # ---- later additions, each on its own stream (the cases above stay as they were) ----
+    # typed headers the WSDL declares (soap:header), given through options.soapheaders as values
+    rng3 = random.Random("C05h/%d/%d" % (seed, idx))
+    c.typed_headers, c.header_mode = [], None
+    if rng3.random() < 0.4:
+        R.prefixes = pick_prefixes(rng3, len(S.namespaces))
+        hdrs = []
+        for j in range(rng3.choice([1, 1, 2])):
+            if rng3.random() < 0.7:
+                ht = rng3.choice(S.types)
+                htr = ("n", ht.ns, ht.name)
+            else:
+                htr = ("b", rng3.choice(F.BUILTINS))
+            hdrs.append(("thd%d" % j, rng3.randrange(len(S.namespaces)), htr))
+        op.headers = hdrs
+        vals = [F.gen_value(rng3, S, F.Elem(hn, hns, True, htr), depth=1) for hn, hns, htr in hdrs]
+        if not c.headers and rng3.random() < 0.5:
+            c.header_mode = "dict"
+            c.typed_headers = [(h[0], v) for h, v in zip(hdrs, vals) if rng3.random() < 0.8]
+        else:
+            # a tuple may mix Element headers and values for the declared parts
+            c.header_mode = "tuple"
+            c.typed_headers = [(h[0], v) for h, v in zip(hdrs, vals)]
+            order = [("el", h) for h in c.headers] + [("val", tv) for tv in c.typed_headers]
+            keep_vals = iter(c.typed_headers)
+            rng3.shuffle(order)
+            c.header_order = [(k, x if k == "el" else next(keep_vals)) for k, x in order]
+    elif rng3.random() < 0.3:
+        R.prefixes = pick_prefixes(rng3, len(S.namespaces))
+    c.wsdl_prefixes = list(R.prefixes)
+    # whitespace-bearing strings in element text, attribute values, raw elements and Element headers
+    rng4 = random.Random("C05w/%d/%d" % (seed, idx))
+    c.ws_hits = 0
+    if rng4.random() < 0.45:
+        hit = [0]
+        pw = rng4.choice([0.3, 0.6, 1.0])
+        for k in list(c.kwargs_abs):
+            c.kwargs_abs[k] = inject_ws(rng4, c.kwargs_abs[k], pw, hit)
+        for h in c.headers:
+            inject_ws(rng4, h, pw, hit)
+        c.typed_headers = [(n, inject_ws(rng4, v, pw, hit)) for n, v in c.typed_headers]
+        if c.header_mode == "tuple":
+            vals = iter(c.typed_headers)
+            c.header_order = [(k, x if k == "el" else next(vals)) for k, x in c.header_order]
+        c.ws_hits = hit[0]
     c.wsdl = F.render_ops(S, [op], R)
     return c
 
@@ -451,7 +555,12 @@ def run_case(c):
     from . import sudsutil as U
     client = U.client_from_wsdl(c.wsdl, nosend=True)
     kwargs = dict((k, to_py(client, c.S, v)) for k, v in c.kwargs_abs.items())
-    headers = [build_el(h) for h in c.headers]
+    if c.header_mode == "dict":
+        headers = dict((n, to_py(client, c.S, v)) for n, v in c.typed_headers)
+    elif c.header_mode == "tuple":
+        headers = tuple(build_el(x) if k == "el" else to_py(client, c.S, x[1]) for k, x in c.header_order)
+    else:
+        headers = [build_el(h) for h in c.headers]
     if headers:
         client.set_options(soapheaders=headers)
     svc = client.service[c.port]
@@ -501,6 +610,12 @@ def features(c):
     walk(c.trees[True])
     if c.headers:
         f.add("element-header")
+    if c.typed_headers:
+        f.add("typed-wsdl-header-%s" % c.header_mode)
+        if any(_GP.match(x) for x in c.wsdl_prefixes):
+            f.add("typed-wsdl-header-under-ns<k>-style-wsdl-prefixes")
+    if c.ws_hits:
+        f.add("CR-LF-TAB-in-text-or-attribute")
     return f
 
 
@@ -574,6 +689,7 @@ def payload_of(c, extra=None):
          "wsdl": c.wsdl.decode("utf-8"), "operation": "%s.%s" % (c.port, c.opname),
          "arguments": dict((k, describe(v)) for k, v in c.kwargs_abs.items()),
          "soapheaders": [describe(h) for h in c.headers],
+         "typed soapheaders (%s)" % c.header_mode: [(n, describe(v)) for n, v in c.typed_headers],
          "tree_before_prefix_pass(xstq=True)": show_tree(c.trees[True]) if hasattr(c, "trees") else None,
          "requests": dict(("prefixes=%s prettyxml=%s xstq=%s sortNamespaces=%s" % s,
                            (o.decode("utf-8", "replace") if isinstance(o, bytes) else o))
@@ -630,6 +746,93 @@ def genprefix_cases(ck, n):
 
 
 # ---------------------------------------------------------------------------
+# character data on the wire: Element.str() / Element.plain() / Attribute
+# ---------------------------------------------------------------------------
+
+_ENT = {"amp": 38, "lt": 60, "gt": 62, "quot": 34, "apos": 39}
+
+
+def wire_tokens(w):
+    """scan serialised character data into the tokens of coq/C05/Text.v; None if it cannot be scanned"""
+    out, i = [], 0
+    while i < len(w):
+        ch = w[i]
+        if ch == "<":
+            return None
+        if ch == "&":
+            j = w.find(";", i)
+            if j < 0:
+                return None
+            ent = w[i + 1:j]
+            try:
+                if ent.startswith("#x"):
+                    out.append("(WRef %d)" % int(ent[2:], 16))
+                elif ent.startswith("#"):
+                    out.append("(WRef %d)" % int(ent[1:]))
+                else:
+                    out.append("(WEnt %d)" % _ENT[ent])
+            except (KeyError, ValueError):
+                return None
+            i = j + 1
+        else:
+            out.append("(WChar %d)" % ord(ch))
+            i += 1
+    return out
+
+
+def _between(w, a, b):
+    i = w.index(a) + len(a)
+    return w[i:w.rindex(b)]
+
+
+def text_cases(ck, n):
+    """(text cases, attribute cases, meta): the same string as the text of an element (alone and as an
+    indented child) and as an attribute value, written by str() and by plain()"""
+    from suds.sax.element import Element
+    rng = ck.rng
+    strings = list(WS_STRINGS)
+    while len(strings) < n:
+        strings.append(ws_string(rng))
+    tcases, acases, tmeta, ameta = [], [], [], []
+
+    def tok(f):
+        try:
+            return wire_tokens(f())
+        except Exception:   # noqa
+            return None
+
+    def lit(t):
+        return copt(clist(t, "wtok") if t is not None else None, "list wtok")
+
+    for k, s in enumerate(strings):
+        nested = k % 2 == 1
+        e = Element("x")
+        e.setText(s)
+        top = e
+        if nested:
+            top = Element("p")
+            top.append(Element("y"))
+            top.append(e)
+        pt = tok(lambda: _between(top.str(), "<x>", "</x>"))
+        qt = tok(lambda: _between(top.plain(), "<x>", "</x>"))
+        tcases.append("(%s, %s, %s)%%N" % (common.cstr(s), lit(pt), lit(qt)))
+        tmeta.append((s, nested))
+        a = Element("x")
+        a.set("a", s)
+        top = a
+        if nested:
+            top = Element("p")
+            top.append(a)
+        for pretty in (True, False):
+            at = tok(lambda: _between(top.str() if pretty else top.plain(), '<x a="', '"/>'))
+            acases.append("(%s, %s)%%N" % (common.cstr(s), lit(at)))
+            ameta.append((s, nested, pretty))
+        ck.seen(("chardata", s, nested), nontrivial=any(c in s for c in "\r\n\t&<>\"'"))
+        ck.count("chardata-strings")
+    return tcases, acases, tmeta, ameta
+
+
+# ---------------------------------------------------------------------------
 # the check
 # ---------------------------------------------------------------------------
 
@@ -650,13 +853,16 @@ def run(ck):
         "expat (namespace mode) as the independent XML processor reading each request; an undeclared "
         "prefix in a tag/attribute makes it fail, an undeclared prefix in xsi:type / arrayType is checked "
         "by the harness on expat's in-scope map",
-        "tags are modelled as a tree of start tags with their xmlns declarations: tokenisation, escaping "
-        "and tag balancing are not modelled (escaping is C04's subject)",
+        "tags are modelled as a tree of start tags with their xmlns declarations: tokenisation and tag "
+        "balancing are not modelled; character data is modelled as a list of tokens (character / predefined "
+        "entity / numeric reference, coq/C05/Text.v) which the harness scans from Element.str()/plain() output - "
+        "the spelling of the references is C04's subject",
     ]
     ck.notes = [
         "modelled: PrefixNormalizer (set iteration order = parameter `ord`; theorems hold for every order), "
         "promotePrefixes, refitPrefixes, nsdeclarations, str/plain incl. ElementWrapper, Typer.genprefix, "
-        "Binding.get_message's choice, _SoapClient.send's choice of str/plain",
+        "Binding.get_message's choice, _SoapClient.send's choice of str/plain; Element.__escaped_text and "
+        "Attribute.__unicode__ (CR / TAB / LF as character references) under str() and plain()",
         "covered by correspondence only: the marshaller producing the tree before the prefix pass, "
         "headercontent's deepcopy of Element headers, Document.str/plain prolog",
         "sortNamespaces is read only by ServiceDefinition.pushprefixes (checked on the source each run); "
@@ -775,10 +981,31 @@ def run(ck):
         else:
             disagreements.append(("genprefix", flat, uri, r))
 
+    # ---- character data under str() / plain() -----------------------------
+    tcases, acases, tmeta, ameta = text_cases(ck, 60 if ck.tier == "quick" else 600)
+    tres = ck.run_cases("chardata_text", PRE_TEXT, "tcase", tcases, ["text_wire_agrees", "text_wire_spec_ok"])
+    ares = ck.run_cases("chardata_attr", PRE_TEXT, "acase", acases, ["attr_wire_agrees", "attr_wire_spec_ok"])
+    for i in tres["text_wire_spec_ok"][:1]:
+        ck.failing_input(K_TEXT, "the text %r of an element is not read back unchanged by an XML parser from "
+                         "Element.str() (prettyxml=True) and Element.plain()" % (tmeta[i][0],),
+                         {"text": tmeta[i][0], "nested": tmeta[i][1], "case": tcases[i],
+                          "how": "e = Element('x'); e.setText(text); compare e.str() and e.plain()"})
+    for i in ares["attr_wire_spec_ok"][:1]:
+        ck.failing_input(K_TEXT, "the attribute value %r is not read back unchanged by an XML parser (prettyxml=%s)"
+                         % (ameta[i][0], ameta[i][2]),
+                         {"value": ameta[i][0], "nested": ameta[i][1], "prettyxml": ameta[i][2], "case": acases[i],
+                          "how": "e = Element('x'); e.set('a', value); e.str() / e.plain()"})
+    for i in [i for i in tres["text_wire_agrees"] if i not in tres["text_wire_spec_ok"]][:1]:
+        disagreements.append(("chardata-text", tmeta[i], tcases[i]))
+    for i in [i for i in ares["attr_wire_agrees"] if i not in ares["attr_wire_spec_ok"]][:1]:
+        disagreements.append(("chardata-attr", ameta[i], acases[i]))
+
     ck.rule = ("request i: own PRNG stream (seed, i) -> generated schema (1-3 namespaces, qualified/unqualified forms, "
                "extension chains, nillable, attributes) x one operation (wrapped / bare / rpc-literal) x conforming "
                "arguments (None for nillable, derived types, 30% with raw Element values, 35% with Element soap "
-               "headers incl. clashing ns<k> prefixes) x all 16 settings of prefixes x prettyxml x xstq x "
+               "headers incl. clashing ns<k> prefixes, 40% with typed headers the WSDL declares under ns<k>-style "
+               "WSDL prefixes, 45% with CR / CRLF / TAB / LF in string values, attribute values and raw element "
+               "texts) x all 16 settings of prefixes x prettyxml x xstq x "
                "sortNamespaces; distinct = (request, setting); non-trivial = the tree has a raw value, a header, "
                "xsi:nil/xsi:type, a prefixed attribute or an unqualified element")
     ck.exhaustive = False
@@ -803,6 +1030,19 @@ def replay(ck, payload):
     common.force_repo_path()
     print(payload.get("what"))
     g = payload.get("generator")
+    if not g and ("text" in payload or "value" in payload):
+        from suds.sax.element import Element
+        e = Element("x")
+        if "text" in payload:
+            e.setText(payload["text"])
+        else:
+            e.set("a", payload["value"])
+        try:
+            print("str()  : %r" % e.str())
+            print("plain(): %r" % e.plain())
+        except Exception as ex:   # noqa
+            print("serialisation fails now:", repr(ex))
+        return 0
     if not g:
         print(payload)
         return 0
